@@ -30,6 +30,70 @@ def _forwarding(check, prop: str, mod):
   lints.check_lints(check, funcs)
 
 
+def _isolated(mod):
+  """`mod.run` with every top-level statement guarded separately: a rule group that cannot find its anchor (or fails on code it
+  was not written for) is recorded and the remaining groups still run, so one renamed helper does not switch the whole check off.
+  A later statement that needs a name the failed one would have bound is recorded as skipped."""
+  cached = getattr(mod, '_fjsa_isolated_run', None)
+  if cached is not None:
+    return cached
+  import ast, inspect, textwrap
+  src = inspect.getsource(mod.run)
+  first = mod.run.__code__.co_firstlineno
+  tree = ast.parse(textwrap.dedent(src))
+  fn = tree.body[0]
+  ast.increment_lineno(tree, first - 1)
+  body = []
+  for i, st in enumerate(fn.body):
+    if isinstance(st, ast.Expr) and isinstance(st.value, ast.Constant):
+      body.append(st)
+      continue
+    names = sorted({n.id for n in ast.walk(st) if isinstance(n, ast.Name) and isinstance(n.ctx, ast.Store)} |
+                   {a.asname or a.name.split('.')[0] for n in ast.walk(st) if isinstance(n, (ast.Import, ast.ImportFrom)) for a in n.names} |
+                   ({st.name} if isinstance(st, (ast.FunctionDef, ast.ClassDef)) else set()))
+    handler = ast.ExceptHandler(
+        type=ast.Name('Exception', ast.Load()), name='_fjsa_e',
+        body=[ast.Expr(ast.Call(ast.Name('_fjsa_fail', ast.Load()),
+                                [ast.Name(fn.args.args[0].arg, ast.Load()), ast.Name('_fjsa_e', ast.Load()), ast.Constant(tuple(names)),
+                                 ast.Constant(st.lineno)], []))])
+    t = ast.Try(body=[st], handlers=[handler], orelse=[], finalbody=[])
+    ast.copy_location(t, st)
+    body.append(t)
+  fn.body = body
+  fn.name = '_fjsa_isolated_run'
+  ast.fix_missing_locations(tree)
+  ns = mod.__dict__
+  ns['_fjsa_fail'] = _fail
+  exec(compile(tree, mod.__file__, 'exec'), ns)   # pylint: disable=exec-used
+  return ns['_fjsa_isolated_run']
+
+
+def _fail(check, e, names, lineno):
+  failed = check.__dict__.setdefault('_failed_names', set())
+  if isinstance(e, (NameError, UnboundLocalError)):
+    nm = getattr(e, 'name', None)
+    if nm is None:
+      import re
+      mm = re.search(r"'(\w+)'", str(e))
+      nm = mm.group(1) if mm else None
+    if nm in failed:
+      failed.update(names)
+      check.error(f'skipped: the rule group at {check.prop.lower()}.py:{lineno} needs `{nm}`, which an earlier failed step would have bound')
+      return
+  failed.update(names)
+  from fjsa.model import AnchorMissing
+  if isinstance(e, AnchorMissing):
+    check.error(f'AnchorMissing:{e}', hard=e.public)
+  elif isinstance(e, report.Inconclusive):
+    check.error(f'inconclusive:{e}')
+  elif isinstance(e, AnalysisError):
+    check.error(f'{type(e).__name__}:{e}')
+  else:
+    tb = traceback.extract_tb(e.__traceback__)
+    at = f'{os.path.basename(tb[-1].filename)}:{tb[-1].lineno}' if tb else '?'
+    check.error(f'internal:{type(e).__name__}:{e} (at {at}; rule group at {check.prop.lower()}.py:{lineno})')
+
+
 def run_property(prop: str, tier: str, repo_root: str, seed: int = 0):
   from fjsa.flow import FuncFlow
   FuncFlow._cache.clear()   # per-run cache: flows of an earlier repository copy must not accumulate (self-validation runs many)
@@ -37,12 +101,12 @@ def run_property(prop: str, tier: str, repo_root: str, seed: int = 0):
   check = report.Check(prop, tier, repo, seed)
   mod = importlib.import_module(f'fjsa.props.{prop.lower()}')
   try:
-    mod.run(check)
+    _isolated(mod)(check)
     _forwarding(check, prop, mod)
   except report.Inconclusive as e:
     check.error(f'inconclusive:{e}')
   except AnalysisError as e:
-    check.error(f'{type(e).__name__}:{e}')
+    check.error(f'{type(e).__name__}:{e}', hard=getattr(e, 'public', False))
   return check, mod
 
 
